@@ -124,6 +124,81 @@ func c16AtomicReplace(r *an.Run) {
 				need[name] = true
 			}
 		}
+		// the writing may be a private helper of its own — writeAndClose(tmp, data, mode) error: the rename is
+		// reachable only through the helper's err==nil edge, and the helper answers nil only after its Write
+		// and its Close of the file it was handed succeeded
+		if !need["(*os.File).Write"] || !need["(*os.File).Close"] {
+			for _, c := range an.Calls(f) {
+				call, ok := c.(*ssa.Call)
+				h := an.StaticCallee(c)
+				if !ok || h == nil || !an.InModule(h) || h.Blocks == nil || errValue(call) == nil {
+					continue
+				}
+				fi := -1
+				for i, a := range call.Call.Args {
+					if derivesFrom(a, ct) && strings.HasSuffix(an.ShortType(a.Type()), "os.File") {
+						fi = i
+					}
+				}
+				if fi < 0 || fi >= len(h.Params) {
+					continue
+				}
+				edges := errNilEdges(call)
+				if len(edges) == 0 || reachedWithout(call, point{pred: nil, blk: e.Site.Block()}, edges) {
+					continue
+				}
+				failEdges := errorFailEdges(h)
+				for name := range need {
+					if need[name] {
+						continue
+					}
+					// every return of the helper that may answer nil is the step's own error handed on, or lies
+					// behind the step's err==nil edge; every other return lies on a failure path (behind an
+					// err != nil edge) and hands on a computed, non-nil error
+					var steps []*ssa.Call
+					for _, ic := range an.CallsTo(h, name) {
+						if icall, ok := ic.(*ssa.Call); ok && icall.Call.Args[0] == ssa.Value(h.Params[fi]) {
+							steps = append(steps, icall)
+						}
+					}
+					good := len(steps) > 0
+					for _, ret := range an.Returns(h) {
+						res := ret.Results[len(ret.Results)-1]
+						direct := false
+						if ex, isEx := res.(*ssa.Extract); isEx {
+							_, direct = ex.Tuple.(*ssa.Call)
+						}
+						if _, isCall := res.(*ssa.Call); isCall && an.IsErrorType(res.Type()) {
+							if c := res.(*ssa.Call); !an.IsCallTo(c, "go.uber.org/multierr.Append", "go.uber.org/multierr.Combine", "fmt.Errorf", "errors.New", "errors.Join") {
+								direct = true
+							}
+						}
+						mayBeNil := an.IsNilConst(res) || direct
+						if !mayBeNil {
+							if len(failEdges) == 0 || !unreachableWithout(ret.Block(), failEdges) {
+								good = false
+							}
+							continue
+						}
+						implied := false
+						for _, st := range steps {
+							if res == errValue(st) {
+								implied = true
+							}
+							if ne := errNilEdges(st); len(ne) > 0 && unreachableWithout(ret.Block(), ne) {
+								implied = true
+							}
+						}
+						if !implied {
+							good = false
+						}
+					}
+					if good {
+						need[name] = true
+					}
+				}
+			}
+		}
 		r.Check(need["(*os.File).Write"], key+"write-ok-before-rename", e.Site.Pos(), "os.Rename is reachable only through the err==nil edge of the temp file's Write")
 		r.Check(need["(*os.File).Close"], key+"close-ok-before-rename", e.Site.Pos(), "os.Rename is reachable only through the err==nil edge of the temp file's Close")
 		// the written bytes are the data parameter
@@ -189,6 +264,19 @@ func c16TempCleanup(r *an.Run, f *ssa.Function, ct *ssa.Call, rename ssa.CallIns
 	bad := 0
 	for _, ret := range an.Returns(f) {
 		if !after[ret.Block()] {
+			continue
+		}
+		followsRename := false
+		if rc, isCall := rename.(*ssa.Call); isCall {
+			// `if err == nil { err = os.Rename(…) }; if err != nil { …remove… }; return nil`: the plain return is
+			// reachable only on the edges taken when the rename's error is nil
+			if ne := errNilEdges(rc); len(ne) > 0 && unreachableWithout(ret.Block(), ne) {
+				if len(ret.Results) > 0 && an.IsNilConst(ret.Results[len(ret.Results)-1]) {
+					followsRename = true
+				}
+			}
+		}
+		if followsRename {
 			continue
 		}
 		if rename.Block() == ret.Block() || rename.Block().Dominates(ret.Block()) {
